@@ -330,9 +330,18 @@ func (w *ResponseWriter) WriteMsg(m *dns.Msg) error {
 		switch {
 		case opt == w.opt:
 			// This is our OPT, options already added by setCookie/setNSID
-		case w.opt != nil:
-			// This is response OPT, need to merge our options
-			opt.Option = append(opt.Option, w.opt.Option...)
+		default:
+			// The response came with an OPT of its own — an upstream's,
+			// relayed by the resolver or forwarder. Its options were
+			// negotiated on that hop: a cookie, an NSID, padding or a
+			// private option there says nothing to this client and must
+			// not be reflected. Only an Extended DNS Error describes the
+			// answer itself (the cache keeps exactly that, too).
+			opt.Option = keepEDE(opt.Option)
+			if w.opt != nil {
+				// This is response OPT, need to merge our options
+				opt.Option = append(opt.Option, w.opt.Option...)
+			}
 		}
 
 		// Strip every EDNS0_SUBNET from the client-facing response.
@@ -402,6 +411,17 @@ func keepOPTOnly(extra []dns.RR) []dns.RR {
 		}
 	}
 	return nil
+}
+
+// keepEDE drops every option but Extended DNS Errors (RFC 8914).
+func keepEDE(opts []dns.EDNS0) []dns.EDNS0 {
+	keep := opts[:0]
+	for _, o := range opts {
+		if _, isEDE := o.(*dns.EDNS0_EDE); isEDE {
+			keep = append(keep, o)
+		}
+	}
+	return keep
 }
 
 // stripECS returns opts with every EDNS0_SUBNET entry removed.
